@@ -73,6 +73,15 @@ func runQuery(dir, name, query string, timeoutS int, waitAll bool) SolverResult 
 			_ = cmd.Run()
 			secs := time.Since(t0).Seconds()
 			s := out.String()
+			// z3 prints pattern warnings before the verdict: drop them
+			var kept []string
+			for _, ln := range strings.Split(s, "\n") {
+				if strings.HasPrefix(strings.TrimSpace(ln), "WARNING") {
+					continue
+				}
+				kept = append(kept, ln)
+			}
+			s = strings.Join(kept, "\n")
 			first := strings.TrimSpace(strings.SplitN(s, "\n", 2)[0])
 			st := "unknown"
 			switch first {
